@@ -388,6 +388,126 @@ def _real_repo(case, env):
     return repo
 
 
+# ------------------------------------------------- real client, real server
+
+class _DirServer:
+    def __init__(self, path):
+        self.path = path
+
+    def get_url(self):
+        from breezy import urlutils
+        return urlutils.local_path_to_url(self.path) + "/"
+
+
+def remote_setup(env):
+    from breezy.tests import test_server
+    srv = test_server.SmartTCPServer_for_testing()
+    srv.start_server(_DirServer(env.root))
+    env.shared["c33srv"] = srv
+
+
+def remote_teardown(env):
+    srv = env.shared.pop("c33srv", None)
+    if srv is not None:
+        srv.stop_server()
+
+
+def run_remote(case, env):
+    """The whole path: RemoteRepository.get_parent_map with its cache on,
+    over a real smart server; the recipe every request carried is observed on
+    the server side and compared with the cache the client had when it sent
+    it."""
+    import os
+    from breezy import repository as _mod_repository
+    from breezy import transport as _mod_transport
+    from breezy.bzr.remote import RemoteRepository
+    from breezy.bzr.smart.repository import SmartServerRepositoryRequest
+    g = true_graph(case)
+    real = _real_repo(case, env)
+    path = real.controldir.root_transport.local_abspath(".")
+    url = env.shared["c33srv"].get_url() + os.path.relpath(path, env.root)
+    sent = []       # client cache keys at the time of each request
+    seen = []       # what the server made of the recipe
+    orig_rpc = RemoteRepository._get_parent_map_rpc
+    orig_rec = SmartServerRepositoryRequest.recreate_search_from_recipe
+
+    def rpc(self, keys):
+        cached = self._unstacked_provider.get_cached_map() or {}
+        if set(keys) - {NULL}:
+            # (a request for null: alone is answered without the server)
+            sent.append((set(cached), set(keys)))
+        return orig_rpc(self, keys)
+
+    def rec(self, repository, lines, discard_excess=False):
+        res = orig_rec(self, repository, lines, discard_excess)
+        seen.append((list(lines), res))
+        return res
+
+    from breezy.bzr.smart.repository import SmartServerRepositoryGetParentMap
+    # a server that answers only what was asked stands for a history too big
+    # for one 64 kB answer: the walk then takes many requests, each with a
+    # recipe describing a growing cache
+    orig_extra = SmartServerRepositoryGetParentMap.no_extra_results
+    SmartServerRepositoryGetParentMap.no_extra_results = bool(
+        case.get("no_extra"))
+    t = _mod_transport.get_transport_from_url(url)
+    RemoteRepository._get_parent_map_rpc = rpc
+    SmartServerRepositoryRequest.recreate_search_from_recipe = rec
+    try:
+        repo = _mod_repository.Repository.open(url)
+        check(isinstance(repo, RemoteRepository),
+              "C33/harness-not-a-remote-repository", [repr(repo)])
+        labels = []
+        with repo.lock_read():
+            for i, rnd in enumerate(case["rounds"]):
+                keys = [enc(k) for k in rnd["keys"]]
+                got = repo.get_parent_map(keys)
+                want = {k: g[k] for k in keys if k in g}
+                got = {k: v for k, v in dict(got).items() if k != NULL}
+                # (whether null: itself is answered is not this property's
+                # business)
+                check(got == want, "C33/remote-get_parent_map-differs",
+                      [i, rnd["keys"], _show(got), _show(want)])
+            # everything the client has not asked about yet
+            tips = [enc(t_) for t_ in case["tips"]]
+            anc = set(k for k, ps in repo.get_graph().iter_ancestry(tips)
+                      if ps is not None and k != NULL)
+            wanta = gm.ancestry_many(g, tips)
+            wanta.discard(NULL)
+            check(anc == wanta, "C33/remote-ancestry-differs",
+                  [case["tips"], sorted(anc ^ wanta)])
+            lab = _nontrivial_cache(
+                g, dict(repo._unstacked_provider.get_cached_map() or {}),
+                set())
+        check(len(sent) == len(seen), "C33/harness-request-count-differs",
+              [len(sent), len(seen)])
+        partial = False
+        for (cached, asked), (lines, (res, err)) in zip(sent, seen):
+            detail = [sorted(cached), sorted(asked),
+                      [ln.decode("utf-8", "replace") for ln in lines]]
+            if err is not None:
+                check(False, "C33/remote-recipe-count-rejected-by-server",
+                      detail + [repr(err)])
+            keys = set(res.get_keys())
+            check(keys - {NULL} <= cached,
+                  "C33/remote-recipe-walks-revisions-not-seen",
+                  detail + [sorted(keys - cached)])
+            if cached and keys:
+                partial = True
+    finally:
+        RemoteRepository._get_parent_map_rpc = orig_rpc
+        SmartServerRepositoryRequest.recreate_search_from_recipe = orig_rec
+        SmartServerRepositoryGetParentMap.no_extra_results = orig_extra
+        t.disconnect()
+        try:
+            repo._client._medium.disconnect()
+        except (AttributeError, NameError):
+            pass
+    if not partial:
+        return trivial()
+    return ok("remote-session")
+
+
 # --------------------------------------------------------------- generation
 
 @st.composite
@@ -527,6 +647,18 @@ def _buildable(case):
     return True
 
 
+@st.composite
+def gen_remote(draw):
+    case = draw(_real(gen_session().filter(
+        lambda c: c.get("subset") is None), 12))
+    g = true_graph(case)
+    present = sorted(k.decode() for k in g)
+    case["tips"] = draw(st.lists(st.sampled_from(present[-3:] + present),
+                                 min_size=1, max_size=2, unique=True))
+    case["no_extra"] = draw(st.sampled_from([True, True, True, False]))
+    return case
+
+
 def kinds(tier):
     ks = [
         Kind("parent-map-session", run_session, strategy=gen_session(),
@@ -539,6 +671,9 @@ def kinds(tier):
         Kind("real-repository-fetch", run_fetch,
              strategy=_real(gen_fetch(), 10),
              examples={"quick": 100, "thorough": 6000}),
+        Kind("remote-session", run_remote, strategy=gen_remote(),
+             setup=remote_setup, teardown=remote_teardown,
+             examples={"quick": 160, "thorough": 6000}),
     ]
     return ks
 
